@@ -485,7 +485,7 @@ P('C03', 'other',
   "sibling equality incl. the per-spike filter scan and get_tau; single-pass projection; train-swap symmetry with lemma L5; units."
   + NOT_DECIDED + "mutual one-to-one coincidence, equal counts per train, agreement of the per-spike scan with the merged scan as values.",
   ["lemmas L1, L4, L5"],
-  {'R03.1': 50, 'R03.2': 30, 'R03.3': 15, 'R03.4': 7, 'R03.5': 25, 'R16.1': 4})
+  {'R03.1': 50, 'R03.2': 30, 'R03.3': 15, 'R03.4': 7, 'R03.5': 25, 'R16.1': 2})
 
 P('C04', 'other',
   [lambda c: _discrete_rules(c, ('order', 'dir')),
@@ -720,7 +720,7 @@ P('C16', 'other',
   "the `> 0` test, so None, 0 and 0.0 take the same path; sibling equality of get_tau."
   + NOT_DECIDED + "'enlarging max_tau never removes a coincidence' as a value statement (min is monotone in the cap by shape).",
   [],
-  {'R16.1': 4, 'R16.2': 7, 'R16.3': 25, 'R16.4': 30})
+  {'R16.1': 2, 'R16.2': 7, 'R16.3': 25, 'R16.4': 30})
 
 P('C17', 'other',
   [lambda c: RM.r17_filter(c, 'R17.1', 'R17.2'),
